@@ -351,6 +351,32 @@ pub fn batch(req: &J) -> J {
         runs.push(out);
     }
     let mut top = json!({"txhashes": txhashes, "before": before, "runs": runs});
+    if let Some(steps) = req.get("steps").and_then(|s| s.as_array()) {
+        // batches applied one after the other to the same state (optionally sealing in between)
+        let mut st = st0.clone();
+        let mut outs = vec![];
+        for step in steps {
+            if step.as_str() == Some("seal_next") {
+                let s2 = st.clone();
+                match catch_unwind(AssertUnwindSafe(|| s2.seal(None).next_unsealed())) {
+                    Ok(n) => { st = n; outs.push(json!({"sealed": true, "height": vh::height(&st)})); }
+                    Err(_) => { outs.push(json!({"panicked": true, "msg": crate::last_panic()})); break; }
+                }
+                continue;
+            }
+            let idxs: Vec<usize> = step.as_array().unwrap().iter().map(|i| i.as_u64().unwrap() as usize).collect();
+            let batch: Vec<Transaction> = idxs.iter().map(|i| txs[*i].clone()).collect();
+            let r = catch_unwind(AssertUnwindSafe(|| st.apply_tx_batch(&batch)));
+            let mut o = match r {
+                Err(_) => json!({"panicked": true, "msg": crate::last_panic()}),
+                Ok(Ok(())) => json!({"panicked": false, "result": "Ok"}),
+                Ok(Err(e)) => json!({"panicked": false, "result": err_name(&e)}),
+            };
+            o["n_coins"] = json!(dump_coins(&st).0.len());
+            outs.push(o);
+        }
+        top["steps"] = J::Array(outs);
+    }
     if req.get("report_min_fee").is_some() {
         let mult = u128_of(&req["fee_multiplier"]);
         let mut m = serde_json::Map::new();
